@@ -12,7 +12,7 @@ FEATURES = ("io_uring",)
 ISOLATE = True
 TIMEOUT_MS = 15000
 HARNESS_JOBS = 4
-LEVEL = "partial"
+LEVEL = "proof"
 SHRINK_KEY = "ops"
 SHARD_SIZE = 30
 RULE = ("cases of 1-4 callers (plain threads and coroutines of the event loop), each with a program of 1-4 hooked "
